@@ -181,7 +181,7 @@ var corpus = []string{
 	`{"kind":"binds","s2s":false,"from":"me@example.net","request_hex":"3c697120747970653d27736574272069643d2731273e3c62696e6420786d6c6e733d2775726e3a696574663a706172616d733a786d6c3a6e733a786d70702d62696e64273e3c7265736f757263653e783c2f7265736f757263653e3c2f62696e643e3c2f69713e","verdict":"stanza-error"}`,
 	// a stream error with an application-specific condition was not returned as such (fixed in stream/error.go)
 	`{"kind":"expect","recv":true,"ws":false,"script_hex":"3c73747265616d3a6572726f7220786d6c6e733a73747265616d3d27687474703a2f2f6574686572782e6a61626265722e6f72672f73747265616d73273e3c636f6e666c69637420786d6c6e733d2775726e3a696574663a706172616d733a786d6c3a6e733a786d70702d73747265616d73272f3e3c746f6f2d6d616e7920786d6c6e733d2775726e3a6578616d706c653a617070273e3c6e2f3e3c2f746f6f2d6d616e793e3c7465787420786d6c6e733d2775726e3a696574663a706172616d733a786d6c3a6e733a786d70702d73747265616d73273e783c2f746578743e3c2f73747265616d3a6572726f723e"}`,
-	// a header with to='' on the initiating side clears the local address (known finding)
+	// a header with to='' on the initiating side cleared the local address (fixed in negotiator.go)
 	`{"kind":"sess","recv":false,"s2s":false,"ws":false,"lang_hex":"","local":"me@example.net","remote":"example.net","headers":["3c73747265616d3a73747265616d20786d6c6e733d276a61626265723a636c69656e742720786d6c6e733a73747265616d3d27687474703a2f2f6574686572782e6a61626265722e6f72672f73747265616d73272066726f6d3d276578616d706c652e6e65742720746f3d27272076657273696f6e3d27312e30272069643d2778273e"]}`,
 	// the default bind without any address for the peer
 	`{"kind":"binds","s2s":false,"request_hex":"3c697120747970653d27736574272069643d2731273e3c62696e6420786d6c6e733d2775726e3a696574663a706172616d733a786d6c3a6e733a786d70702d62696e64273e3c7265736f757263653e783c2f7265736f757263653e3c2f62696e643e3c2f69713e","verdict":"default"}`,
